@@ -14,10 +14,20 @@ Open Scope N_scope.
 (* equal as Python values: identical, or == *)
 Definition same (a b : pyval) : Prop := a = b \/ pyeq a b = true.
 
-Definition exact (C : codecs) (T : coltype) (dbv : pyval) : Prop :=
+(* R relates the writer's cached value to what a database read returns *)
+Definition exact_gen (R : pyval -> pyval -> Prop) (C : codecs) (T : coltype) (dbv : pyval) : Prop :=
   forall lit s, literal C dbv = Ok lit -> sqlite_store C (col_affinity T) lit = Ok s ->
-    (forall c, to_python C T dbv = Ok c -> exists d, read_db C T s = Ok d /\ same c d) /\
+    (forall c, to_python C T dbv = Ok c -> exists d, read_db C T s = Ok d /\ R c d) /\
     (exists r, compare_operand C (col_affinity T) lit = Ok r /\ sval_sqleq s r = true).
+Definition exact := exact_gen same.
+(* readable and findable, whatever the relation between the two values *)
+Definition any2 (_ _ : pyval) : Prop := True.
+Definition readable := exact_gen any2.
+Lemma exact_readable C T dbv : exact C T dbv -> readable C T dbv.
+Proof.
+  intros H lit s Hl Hs. destruct (H lit s Hl Hs) as [Hr Hc]. split; [|exact Hc].
+  intros c Hc'. destruct (Hr c Hc') as (d & Hd & _). exists d. split; [exact Hd|exact I].
+Qed.
 
 Lemma str_eqb_refl s : str_eqb s s = true.
 Proof. induction s as [|c s IH]; [reflexivity|]. cbn [str_eqb]. now rewrite N.eqb_refl, IH. Qed.
@@ -25,7 +35,7 @@ Proof. induction s as [|c s IH]; [reflexivity|]. cbn [str_eqb]. now rewrite N.eq
 (* ---------------------------------------------------------------- the oracle, as a Prop *)
 Lemma oracle_exact C T dbv : engine_exact C T dbv = true -> exact C T dbv.
 Proof.
-  unfold engine_exact, exact. intros H lit s Hl Hs. rewrite Hl, Hs in H.
+  unfold engine_exact, exact, exact_gen. intros H lit s Hl Hs. rewrite Hl, Hs in H.
   apply andb_true_iff in H. destruct H as [H1 H2]. split.
   - intros c Hc. rewrite Hc in H1. destruct (read_db C T s) as [d|e]; [|discriminate].
     exists d. split; [reflexivity|]. right. exact H1.
@@ -45,21 +55,29 @@ Proof.
 Qed.
 
 (* ---------------------------------------------------------------- date/time text in a NUMERIC column *)
+Lemma exact_gen_numeric_text (R : pyval -> pyval -> Prop) C T inner dbv c c' :
+  col_affinity T = ANUMERIC ->
+  literal C dbv = Ok (c_q :: inner ++ [c_q]) ->
+  forallb dt_char inner = true -> looks_numeric inner = false ->
+  to_python C T dbv = Ok c -> to_python C T (PStr inner) = Ok c' -> R c c' ->
+  exact_gen R C T dbv.
+Proof.
+  intros Ha Hlit Hch Hnum Hto Hread HR lit st Hl Hs. rewrite Hlit in Hl. injection Hl as <-. rewrite Ha in *.
+  destruct (dt_chars_text_ok inner Hch) as [Hok Hq].
+  rewrite <- (quote_plain inner Hq) in *.
+  rewrite store_quoted, Hok in Hs. cbn [apply_affinity] in Hs. rewrite Hnum in Hs. injection Hs as <-. split.
+  - intros c0 Hc0. rewrite Hto in Hc0. injection Hc0 as <-. exists c'. split; [exact Hread|exact HR].
+  - unfold compare_operand. rewrite store_quoted, Hok. cbn [apply_affinity rbind]. rewrite Hnum.
+    exists (SText inner). split; [reflexivity|]. cbn [sval_sqleq]. apply str_eqb_refl.
+Qed.
+
 Lemma exact_numeric_text C T inner dbv c :
   col_affinity T = ANUMERIC ->
   literal C dbv = Ok (c_q :: inner ++ [c_q]) ->
   forallb dt_char inner = true -> looks_numeric inner = false ->
   to_python C T dbv = Ok c -> to_python C T (PStr inner) = Ok c ->
   exact C T dbv.
-Proof.
-  intros Ha Hlit Hch Hnum Hto Hread lit st Hl Hs. rewrite Hlit in Hl. injection Hl as <-. rewrite Ha in *.
-  destruct (dt_chars_text_ok inner Hch) as [Hok Hq].
-  rewrite <- (quote_plain inner Hq) in *.
-  rewrite store_quoted, Hok in Hs. cbn [apply_affinity] in Hs. rewrite Hnum in Hs. injection Hs as <-. split.
-  - intros c' Hc'. rewrite Hto in Hc'. injection Hc' as <-. exists c. split; [exact Hread|now left].
-  - unfold compare_operand. rewrite store_quoted, Hok. cbn [apply_affinity rbind]. rewrite Hnum.
-    exists (SText inner). split; [reflexivity|]. cbn [sval_sqleq]. apply str_eqb_refl.
-Qed.
+Proof. intros. apply (exact_gen_numeric_text same C T inner dbv c c); try assumption. now left. Qed.
 
 (* ---------------------------------------------------------------- an int64 in an INTEGER or NUMERIC column *)
 Lemma exact_int C T z dbv :
